@@ -45,18 +45,23 @@ def observe(tier):
              for v in ("terminology", "template") for g in GRAPHS for p in PROGS]
     # refresh and the warm / stale download cache
     cases += [[{"graph": g, "prog": p, "max_preempt": k, "sample": smp, "variant": "terminology", "cache": c}]
-              for g in GRAPHS for p in RPROGS for c in CACHES]
+              for g in GRAPHS for p in RPROGS for c in (CACHES if tier == "thorough" else ("empty", "stale"))]
     cases += [[{"graph": g, "prog": p, "max_preempt": k, "sample": smp, "variant": v, "cache": c}]
               for v in ("terminology", "template") for g in GRAPHS for p in (PROGS if tier == "thorough" else ["dA_lA", "lC_dA_lC"]) for c in ("warm", "stale")]
     # spec -> code: behaviours of the model (TLC simulation of LoaderBeh: random interleavings with many context switches, far
     # beyond the preemption bound of the exploration above) replayed as schedules into the real loader
-    nb = 40 if tier == "quick" else 400
+    nb = 30 if tier == "quick" else 400
+    if tier == "quick":
+        tsel = [("dA_lB", "empty"), ("dA_dB_lA_lA", "empty"), ("dD_dB_lD_lD", "warm"), ("lC_dA_lC", "empty"), ("dA_rA_lA_lA", "stale"),
+                ("dB_rA_lB_lA", "empty"), ("lA_tC_rA_lA_lB_lC", "warm")]
+        hsel = [("dA_lA", "stale"), ("dA_dB_lA_lA", "empty"), ("lC_dA_lC", "warm")]
+    else:
+        tsel = [(p, c) for p in PROGS + RPROGS for c in CACHES]
+        hsel = [(p, c) for p in PROGS for c in CACHES]
     cases += [[{"beh": True, "graph": g, "prog": p, "cache": c, "n": nb, "seed": 11 * i + j}]
-              for i, g in enumerate(GRAPHS) for j, (p, c) in enumerate(
-                  [(p, "empty") for p in PROGS] + [(p, c) for p in RPROGS for c in ("empty", "stale")] +
-                  ([(p, c) for p in PROGS for c in ("warm", "stale")] + [(p, "warm") for p in RPROGS] if tier == "thorough" else [("dA_dB_lA_lA", "warm"), ("dD_dB_lD_lD", "stale")]))]
+              for i, g in enumerate(GRAPHS) for j, (p, c) in enumerate(tsel)]
     cases += [[{"beh": True, "variant": "template", "graph": g, "prog": p, "cache": c, "n": nb, "seed": 7 * i + j}]
-              for i, g in enumerate(GRAPHS) for j, (p, c) in enumerate([(p, "empty") for p in PROGS] + ([(p, c) for p in PROGS for c in ("warm", "stale")] if tier == "thorough" else [("dA_lA", "stale")]))]
+              for i, g in enumerate(GRAPHS) for j, (p, c) in enumerate(hsel)]
     # one case is the exploration of all schedules of one (graph, program, cache): it may take minutes on a loaded machine
     n, files = par.replay_stream(cases, "harness.loader", os.path.join(d, "S"), shard=4000, case_timeout=1800)
     return {"judge": [("JudgeLoader.tla", "JudgeLoader.cfg", files)], "tlc": tlc, "records": {"S": n},
